@@ -302,9 +302,15 @@ class Histogram1D(ObjectWithBinning, HistogramBase):
             return np.nan
         return self._missed[0]
 
+    def _set_missed(self, index: int, value) -> None:
+        if self._missed.dtype.kind in "iu" and np.isnan(value):
+            # NaN (= unknown) cannot be stored as integer
+            self._missed = self._missed.astype(float)
+        self._missed[index] = value
+
     @underflow.setter
     def underflow(self, value):
-        self._missed[0] = value
+        self._set_missed(0, value)
 
     @property
     def overflow(self):
@@ -314,7 +320,7 @@ class Histogram1D(ObjectWithBinning, HistogramBase):
 
     @overflow.setter
     def overflow(self, value):
-        self._missed[1] = value
+        self._set_missed(1, value)
 
     @property
     def inner_missed(self):
@@ -324,7 +330,7 @@ class Histogram1D(ObjectWithBinning, HistogramBase):
 
     @inner_missed.setter
     def inner_missed(self, value):
-        self._missed[2] = value
+        self._set_missed(2, value)
 
     def find_bin(self, value: float, axis: Optional[Axis] = None) -> Optional[int]:
         """Index of bin corresponding to a value.
@@ -374,9 +380,6 @@ class Histogram1D(ObjectWithBinning, HistogramBase):
 
         ixbin = self.find_bin(value)
         if ixbin is None:
-            if self._missed.dtype.kind in "iu":
-                # NaN (= unknown) cannot be stored as integer
-                self._missed = self._missed.astype(float)
             self.overflow = np.nan
             self.underflow = np.nan
         elif ixbin == -1:
